@@ -76,6 +76,9 @@ func c02Specs(tier string) []*Spec {
 		add("reads/3keys/d5", defaultCfg, k3, bs("x"), 5, 1, 1, c02Alpha(true))
 		add("reads/iv7/d5", iv7, k3, bs("x"), 5, 1, 1, c02Alpha(true))
 		add("maint/iv1/d5", iv1, k3, bs("x"), 5, 2, 0, c02Alpha(false))
+		// version numbers around the boundaries of the varint encoding of the version inside the hashes
+		add("maint/iv63/d4", Cfg{Fast: true, IVSet: true, IV: 63}, k3, bs("x"), 4, 2, 0, c02Alpha(false))
+		add("maint/iv8191/d4", Cfg{Fast: true, IVSet: true, IV: 8191}, k3, bs("x"), 4, 2, 0, c02Alpha(false))
 		for i, c := range singleDeviationCfgs()[1:] {
 			if c.IVSet {
 				continue
@@ -98,6 +101,8 @@ func c02Specs(tier string) []*Spec {
 	add("reads/iv7/d5", iv7, k3, bs("x"), 5, 1, 2, c02Alpha(true))
 	add("maint/iv1/d5", iv1, k3, bs("x"), 5, 2, 0, c02Alpha(false))
 	add("maint/iv7/d5", iv7, k3, bs("x"), 5, 2, 0, c02Alpha(false))
+	add("maint/iv63/d5", Cfg{Fast: true, IVSet: true, IV: 63}, k3, bs("x"), 5, 2, 0, c02Alpha(false))
+	add("maint/iv8191/d5", Cfg{Fast: true, IVSet: true, IV: 8191}, k3, bs("x"), 5, 2, 0, c02Alpha(false))
 	for i, c := range singleDeviationCfgs()[1:] {
 		if c.IVSet {
 			continue
